@@ -66,11 +66,11 @@ PROFILES = {
     'contention': {'vehicles': 4, 'stations': 1, 'bases': 1, 'max_plugs': 1, 'max_stalls': 1, 'valid_p': 0.85, 'p_full_step': 0.3},
     'plugs': {'vehicles': 4, 'stations': 1, 'bases': 1, 'min_plugs': 2, 'max_plugs': 3, 'max_stalls': 2, 'valid_p': 0.9, 'p_full_step': 0.3, 'colocate': True},
     'queue': {'vehicles': 5, 'stations': 1, 'bases': 0, 'max_plugs': 1, 'charger_types': ['DCFC'], 'bev_only': True, 'colocate': True, 'near': True,
-              'clusters': (1, 3), 'fleets': [], 'deltas': [30, 60, 61, 90], 'valid_p': 0.95, 'p_full_step': 0.5,
+              'clusters': (1, 3), 'fleets': [], 'deltas': [30, 60, 61, 90], 'valid_p': 0.95, 'p_full_step': 0.5, 'midnight_p': 0.5,
               'instr_weights': [3, 0.2, 4, 2, 0.2, 0.2, 1.5, 0.2, 0.1]},
     # the queue profile with combustion vehicles in the fleet: they are sent to the fast charger like everyone else (and must be refused)
     'queue_mixed': {'vehicles': 5, 'stations': 1, 'bases': 0, 'max_plugs': 1, 'charger_types': ['DCFC'], 'charger_pool': ['DCFC'], 'colocate': True, 'near': True,
-                    'clusters': (1, 3), 'fleets': [], 'deltas': [30, 60, 61, 90], 'valid_p': 0.95, 'p_full_step': 0.5,
+                    'clusters': (1, 3), 'fleets': [], 'deltas': [30, 60, 61, 90], 'valid_p': 0.95, 'p_full_step': 0.5, 'midnight_p': 0.5,
                     'instr_weights': [3, 0.2, 4, 2, 0.2, 0.2, 1.5, 0.2, 0.1]},
     'requests': {'vehicles': 3, 'p_full_step': 0.8, 'valid_p': 0.9},
     'fleets': {'fleets': ['fa', 'fb'], 'valid_p': 0.6},
